@@ -15,11 +15,14 @@ def barrier_set(tier):
     """C03: every depth profile, one event per branch-step (+ captures for small profiles), no faults."""
     out = []
     nmax, dmax = (3, 3)
-    for ds in fp.profiles(nmax, dmax):
+    profs = list(fp.profiles(nmax, dmax))
+    if tier != "quick":
+        profs += list(fp.profiles(4, 2, nmin=4)) + [(1, 2, 3, 4), (4, 4), (4, 1, 4)]
+    for ds in profs:
         for mac in SPAWN4:
             p = fp.build(mac, ds, init_ev=True, flavour="Res" if mac.startswith("try") else None)
             out.append(tprog("%s/%s" % (mac, fp.pname(ds)), p, ds))
-            rich_ok = (len(ds) <= 2) if tier == "quick" else (len(ds) <= 2 or max(ds) <= 2)
+            rich_ok = (len(ds) <= 2) if tier == "quick" else (len(ds) <= 2 or (len(ds) == 3 and max(ds) <= 2))
             if max(ds) > 1 and rich_ok:
                 p = fp.build(mac, ds, init_ev=True, rich=True, flavour="Opt" if mac.startswith("try") else None)
                 out.append(tprog("%s/%s/rich" % (mac, fp.pname(ds)), p, ds))
@@ -87,7 +90,10 @@ def threads_set(tier):
     """C08: flat profiles x 3 caller names with thread-identity checks; nested spawn macros (names only)."""
     out = []
     callers = ("main", "w7", None)
-    for ds in fp.profiles(3, 3):
+    profs = list(fp.profiles(3, 3))
+    if tier != "quick":
+        profs += list(fp.profiles(4, 2, nmin=4)) + [(1, 2, 3, 4), (4, 4), (4, 1, 4), (2, 2, 2, 2, 2)]
+    for ds in profs:
         for mac in SPAWN4:
             if tier == "quick" and len(ds) == 3 and max(ds) == 3 and mac in ("spawn", "try_spawn") and ds.count(3) > 1:
                 continue
@@ -107,9 +113,10 @@ def panic_set(tier):
     """C18: every single panic position (x every failure subset for small try programs) x every schedule."""
     out = []
     dmax = 2 if tier == "quick" else 3
-    for ds in fp.profiles(3, dmax):
-        if tier != "quick" and len(ds) == 3 and sum(ds) > 7:
-            continue
+    profs = list(fp.profiles(3, dmax))
+    if tier != "quick":
+        profs += list(fp.profiles(4, 2, nmin=4))
+    for ds in profs:
         for mac in SPAWN4:
             is_try = mac.startswith("try")
             p = fp.build(mac, ds, init_ev=True, rich=(sum(ds) <= 4), flavour="Res" if is_try else None)
